@@ -55,3 +55,16 @@ def rstripChar (s : String) (c : Char) : String :=
   String.ofList (s.toList.reverse.dropWhile (· == c)).reverse
 
 end Py
+
+namespace Py
+/-- Python `lst[i]` with negative-index semantics; IndexError out of range -/
+def listGetE {α : Type} (l : List α) (i : Int) : Except PyErr α :=
+  let j := if i < 0 then i + l.length else i
+  if j < 0 then .error .IndexError
+  else match l[j.toNat]? with
+    | some x => .ok x
+    | none => .error .IndexError
+/-- `EnumClass(value)`: the value if it is a member, else ValueError -/
+def enumCheck (values : List Int) (x : Int) : Except PyErr Int :=
+  if values.contains x then .ok x else .error .ValueError
+end Py
